@@ -55,12 +55,12 @@ def main():
                           env=env, timeout=1800)
             out["suite_passes_with_patch"] = rc == 0
             out["suite_tail"] = o.strip().splitlines()[-1:] if o else []
-        ev = os.path.join(VERIF, "evidence", f"{prop}.json")
-        saved = open(ev).read() if os.path.exists(ev) else None
         for tier in tiers:
             t0 = time.time()
             rc, o, e = sh([os.path.join(VERIF, "check"), prop, tier, "--no-selftest"],
-                          env=dict(os.environ, VERIF_REPO=scratch, VERIF_MIN_BUDGET="80"), timeout=7200)
+                          env=dict(os.environ, VERIF_REPO=scratch, VERIF_MIN_BUDGET="80",
+                                   VERIF_REPLAY_DIR=os.path.join(scratch, "replays"),
+                                   VERIF_EVIDENCE_DIR=os.path.join(scratch, "evidence")), timeout=7200)
             lines = o.splitlines()
             out[tier] = {"rc": rc, "wall": round(time.time() - t0, 1),
                          "violation": next((l.strip() for l in lines if l.startswith("violation in task")), "")[:200],
@@ -70,16 +70,10 @@ def main():
                 out[tier]["err"] = (o + e)[-500:]
             if rc == 1:
                 break
-        if saved is not None:
-            open(ev, "w").write(saved)
         out["detected_by"] = next((t for t in tiers if out.get(t, {}).get("rc") == 1), None)
         print(json.dumps(out))
     finally:
         shutil.rmtree(scratch, ignore_errors=True)
-        rp = os.path.join(VERIF, "replays")
-        for f in os.listdir(rp):
-            if f.endswith(".json"):
-                os.remove(os.path.join(rp, f))
 
 
 if __name__ == "__main__":
